@@ -9,6 +9,7 @@ package main
 import (
 	"context"
 	"fmt"
+	"os"
 	"sort"
 	"strings"
 	"sync"
@@ -81,6 +82,17 @@ func baseScenarios() []scenario {
 		scenario{first: []string{"drop", "ack"}, kill: "acked", mode: "remote", end: "reconnect", late: true},
 		scenario{first: []string{"drop"}, kill: "arrived", mode: "remote", end: "reconnect", flaky: 1, late: true},
 		scenario{first: []string{"res"}, kill: "before", mode: "local", end: "reconnect", late: true},
+		// a batched msgs_ack whose first id is unknown to the client's engine
+		scenario{first: []string{"ackb"}, kill: "acked", mode: "remote", end: "reconnect"},
+		scenario{first: []string{"drop", "ackb"}, kill: "acked", mode: "local", end: "reconnect"},
+		scenario{first: []string{"ackb"}, kill: "acked", mode: "remote", end: "close"},
+		// the connection dies at the moment the client has read the acknowledgement / the result
+		scenario{first: []string{"ack"}, kill: "ackread", mode: "remote", end: "reconnect"},
+		scenario{first: []string{"ack"}, kill: "ackread", mode: "local", end: "reconnect"},
+		scenario{first: []string{"drop", "ackb"}, kill: "ackread", mode: "remote", end: "reconnect"},
+		scenario{first: []string{"ack"}, kill: "ackread", mode: "remote", end: "close"},
+		scenario{first: []string{"res"}, kill: "resread", mode: "remote", end: "reconnect"},
+		scenario{first: []string{"drop", "ackres"}, kill: "resread", mode: "local", end: "reconnect"},
 	)
 	return out
 }
@@ -88,7 +100,7 @@ func baseScenarios() []scenario {
 func randomScenario(r *hc.RNG) scenario {
 	n := hc.Pick(r, 1, 2, 2, 3, 3)
 	sc := scenario{mode: hc.Pick(r, "remote", "local"), end: hc.Pick(r, "reconnect", "reconnect", "close")}
-	sc.kill = hc.Pick(r, "before", "arrived", "arrived", "acked", "acked", "returned", "none")
+	sc.kill = hc.Pick(r, "before", "arrived", "arrived", "acked", "acked", "returned", "none", "ackread", "resread")
 	for i := 0; i < n; i++ {
 		switch sc.kill {
 		case "before":
@@ -105,14 +117,19 @@ func randomScenario(r *hc.RNG) scenario {
 			} else {
 				sc.first = append(sc.first, hc.Pick(r, "drop", "ack", "res", "ackres"))
 			}
-		case "acked":
-			sc.first = append(sc.first, hc.Pick(r, "ack", "ack", "drop", "res", "ackres"))
+		case "acked", "ackread":
+			sc.first = append(sc.first, hc.Pick(r, "ack", "ackb", "drop", "res", "ackres"))
+		case "resread":
+			sc.first = append(sc.first, hc.Pick(r, "res", "ackres", "drop", "ack", "ackb"))
 		default:
 			sc.first = append(sc.first, hc.Pick(r, "drop", "drop", "ack", "res", "ackres"))
 		}
 	}
-	if sc.kill == "acked" {
-		sc.first[r.Intn(n)] = "ack"
+	if sc.kill == "acked" || sc.kill == "ackread" {
+		sc.first[r.Intn(n)] = hc.Pick(r, "ack", "ackb")
+	}
+	if sc.kill == "resread" {
+		sc.first[r.Intn(n)] = hc.Pick(r, "res", "ackres")
 	}
 	if sc.kill != "none" {
 		sc.flaky = hc.Pick(r, 0, 0, 0, 1, 1, 2, 3)
@@ -128,6 +145,7 @@ func randomScenario(r *hc.RNG) scenario {
 type verdict struct {
 	fails   [][2]string // key, detail
 	anomaly bool        // watchdog / ambiguous history: re-run before believing it
+	recheck bool        // a failure that rests on the order of two concurrent goroutines: only believed when it persists
 }
 
 func monitor(sc scenario, o outcome) verdict {
@@ -142,6 +160,7 @@ func monitor(sc scenario, o outcome) verdict {
 		acked      map[int]bool // epochs on which the server acknowledged
 		answered   map[int]bool
 		ackSeenEp  int // epoch of the acknowledgement the client has processed (-1 none)
+		readEp     int // epoch of the acknowledgement / result the client has read from the wire (-1 none)
 		arrivals   map[int]int
 		lastArr    int
 		returned   bool
@@ -150,7 +169,7 @@ func monitor(sc scenario, o outcome) verdict {
 	rs := map[int]*st{}
 	get := func(r int) *st {
 		if rs[r] == nil {
-			rs[r] = &st{acked: map[int]bool{}, answered: map[int]bool{}, ackSeenEp: -1, arrivals: map[int]int{}, lastArr: -1}
+			rs[r] = &st{acked: map[int]bool{}, answered: map[int]bool{}, ackSeenEp: -1, readEp: -1, arrivals: map[int]int{}, lastArr: -1}
 		}
 		return rs[r]
 	}
@@ -162,6 +181,14 @@ func monitor(sc scenario, o outcome) verdict {
 	dialed := map[int]bool{0: true} // connection epochs for which the client got a socket (dial order = epoch order)
 	endedEp := map[int]bool{}       // … whose socket ended without the harness killing it
 	closed, alive := false, true
+	deadBy := map[int]string{} // connection epoch -> the task that noticed its death first (read | other)
+	for _, e := range o.log {
+		if e.kind == "dead" {
+			if _, ok := deadBy[e.epoch]; !ok {
+				deadBy[e.epoch] = e.note
+			}
+		}
+	}
 	laterDial := func(from int) bool {
 		for _, e := range o.log[from:] {
 			if e.kind == "rep" {
@@ -210,12 +237,20 @@ func monitor(sc scenario, o outcome) verdict {
 			}
 			if q.ackSeenEp >= 0 && e.epoch > q.ackSeenEp {
 				fail("acked-request-resent", fmt.Sprintf("request %d was acknowledged on connection %d (and the client had processed the acknowledgement) but was sent again on connection %d", e.req, q.ackSeenEp, e.epoch))
+			} else if q.readEp >= 0 && e.epoch > q.readEp && deadBy[q.readEp] == "read" && !closed {
+				v.recheck = true
+				fail("acked-request-resent", fmt.Sprintf("request %d was acknowledged / answered on connection %d and the client had read that message from the wire before the connection died (its read loop noticed the death, which closes the rpc engine only after the messages already read are handled), but the request was sent again on connection %d", e.req, q.readEp, e.epoch))
 			}
 			q.lastArr = e.epoch
 		case "ack":
 			get(e.req).acked[e.epoch] = true
 		case "res":
 			get(e.req).answered[e.epoch] = true
+		case "rd":
+			q := get(e.req)
+			if (q.acked[e.epoch] || q.answered[e.epoch]) && q.readEp < 0 {
+				q.readEp = e.epoch
+			}
 		case "seen":
 			q := get(e.req)
 			if q.lastArr >= 0 && (q.acked[q.lastArr] || q.answered[q.lastArr]) && q.ackSeenEp < 0 {
@@ -231,6 +266,8 @@ func monitor(sc scenario, o outcome) verdict {
 				}
 			case closed:
 				// a closed client returns errors: fine
+			case q.ackSeenEp < 0 && q.readEp >= 0 && (!alive || q.readEp < curEpoch || laterDial(idx)):
+				// the acknowledgement was read just before the connection died
 			case q.ackSeenEp >= 0 && (!alive || q.ackSeenEp < curEpoch || laterDial(idx)):
 				// acknowledged request whose connection was lost (killed by the scenario, or died on its own:
 				// the client dials a replacement afterwards): the caller gets an error, by design
@@ -304,6 +341,22 @@ func modelTrace(sc scenario, o outcome) (acts []string, summary string) {
 	epoch, alive, closed := 0, true, false
 	res := make([]string, n)
 	emit := func(f string, a ...any) { acts = append(acts, fmt.Sprintf(f, a...)) }
+	deadBy := map[int]string{}
+	for _, e := range log {
+		if e.kind == "dead" {
+			if _, ok := deadBy[e.epoch]; !ok {
+				deadBy[e.epoch] = e.note
+			}
+		}
+	}
+	// the death of the current connection: noticed by its read loop (kill) or by another task first (killw)
+	emitKill := func() {
+		if deadBy[epoch] == "other" {
+			emit("killw")
+		} else {
+			emit("kill")
+		}
+	}
 	laterRep := func(from int) bool {
 		for _, e := range log[from:] {
 			if e.kind == "rep" {
@@ -326,7 +379,7 @@ func modelTrace(sc scenario, o outcome) (acts []string, summary string) {
 			p[e.req].kind = "ready"
 		case "rep":
 			if alive && !closed {
-				emit("kill") // the client replaced its primary connection: the old one had died
+				emitKill() // the client replaced its primary connection: the old one had died
 				alive = false
 			}
 			if !closed {
@@ -336,7 +389,7 @@ func modelTrace(sc scenario, o outcome) (acts []string, summary string) {
 			}
 		case "kill":
 			if alive {
-				emit("kill")
+				emitKill()
 				alive = false
 			}
 		case "close":
@@ -361,6 +414,8 @@ func modelTrace(sc scenario, o outcome) (acts []string, summary string) {
 		case "res":
 			emit("res:%d:%d", e.req, e.epoch)
 			acked[[2]int{e.req, e.epoch}] = true
+		case "rd":
+			emit("rd:%d:%d", e.req, e.epoch)
 		case "seen":
 			q := &p[e.req]
 			if q.kind == "idle" {
@@ -375,7 +430,7 @@ func modelTrace(sc scenario, o outcome) (acts []string, summary string) {
 				if e.epoch == epoch && alive && !closed {
 					// conn.Invoke failed with "connection dead" on the current connection: it has died
 					// (killed while it was connecting, or on its own); the replacement follows
-					emit("kill")
+					emitKill()
 					alive = false
 				}
 				emit("fail:%d", e.req)
@@ -396,7 +451,7 @@ func modelTrace(sc scenario, o outcome) (acts []string, summary string) {
 				}
 			default:
 				if !closed && alive && q.kind == "acked" && laterRep(idx) {
-					emit("kill") // the connection died on its own (the client replaces it right after)
+					emitKill() // the connection died on its own (the client replaces it right after)
 					alive = false
 				}
 				emit("retErr:%d", e.req)
@@ -473,8 +528,11 @@ func run(c *hc.Ctx) error {
 					o := w.run(ctx, fmt.Sprintf("s%dt%d", i, try), scs[i])
 					r = result{sc: scs[i], o: o, v: monitor(scs[i], o), runs: try + 1}
 					r.acts, r.sum = modelTrace(scs[i], o)
-					if !r.v.anomaly || genuineTimeouts.Load() >= 3 {
+					if !(r.v.anomaly || r.v.recheck) || genuineTimeouts.Load() >= 3 {
 						break
+					}
+					if os.Getenv("VERIF_DEBUG") != "" {
+						fmt.Fprintf(os.Stderr, "c29 debug: re-run of %s: %v | %s\n", scs[i].String(), r.v.fails, showLog(o.log))
 					}
 				}
 				if r.v.anomaly {
@@ -527,8 +585,9 @@ func run(c *hc.Ctx) error {
 		inputs = append(inputs, in+" | "+showLog(r.o.log))
 		wants = append(wants, "ok "+r.sum)
 	}
-	c.Res.Rule = "a case is one end-to-end scenario: a fresh telegram.Client against the in-process tgtest cluster over real sockets, 1..3 concurrent messages.sendMessage invocations whose first copy the server drops / acknowledges / acknowledges and answers / answers; the primary connection is killed (locally: client socket closed; remotely: both proxy legs closed) before the requests are issued / after the server received them / after the client processed the acknowledgements / after the results were returned / never; then the client reconnects (and must serve one more request) or is closed (pending and new invocations must return); non-trivial = a kill or a close happens; distinct = distinct scenario"
+	c.Res.Rule = "a case is one end-to-end scenario: a fresh telegram.Client against the in-process tgtest cluster over real sockets, 1..3 concurrent messages.sendMessage invocations whose first copy the server drops / acknowledges / acknowledges and answers / answers; the primary connection is killed (locally: client socket closed; remotely: both proxy legs closed) before the requests are issued / after the server received them / after the client processed the acknowledgements (also a batched msgs_ack whose first id is unknown to the client) / at the very moment the client has read the acknowledgement or the result from the wire (the handler goroutine of that message is held meanwhile) / after the results were returned / never; then the client reconnects (and must serve one more request) or is closed (pending and new invocations must return); non-trivial = a kill or a close happens; distinct = distinct scenario"
 	c.PartialNote("real network and goroutine timing decide the interleaving inside a scenario; the model admits every order of the observed events and the history is re-run up to 3 times when a watchdog fires or the history is ambiguous (machine load)")
+	c.PartialNote("the moment the client has read an acknowledgement from the wire is observed through mtproto's debug log line \"Received ack\" (the client's Logger), the moment it has read a result through the rpc verif point notify.invoke; a re-send after such a read is reported only when it persists over 3 runs of the scenario (it rests on the order of two goroutines)")
 	c.PartialNote("the moment the client has processed an acknowledgement is observed through the rpc engine's verif point do.wait (VerifC24SetHook); duplicate execution is judged by the server-side log of received copies (the test server does not de-duplicate), acknowledgement = an explicit msgs_ack or the result")
 	ans, err := c.Drv.Batch(lines)
 	if err != nil {
@@ -560,7 +619,7 @@ func run(c *hc.Ctx) error {
 			}
 			if a2 == "ok "+sum2+" holds=1" {
 				agreed = true
-				c.Note("mismatch not reproduced when the scenario was re-run (timing artefact): %s", results[i].sc.String())
+				c.Note("mismatch not reproduced when the scenario was re-run (timing artefact): %s | model said %s for the history %s", results[i].sc.String(), got, showLog(results[i].o.log))
 				c.Res.TracesValidated++
 			}
 		}
